@@ -692,7 +692,7 @@ func TestC19(t *testing.T) {
 	run.Assume("fakes only at the outer boundary: metainfo client (serves the blob's metainfo), the tracker's origin-cluster lookup (hands out the live origin), the corrupting peer's archive wrapper")
 	run.Assume("liveness is judged only as bounded progress: a swarm that does not converge within the watchdog is re-run once and then reported INCONCLUSIVE")
 
-	n := run.N(25, 400)
+	n := run.N(25, 200)
 	maxPieces := run.N(120, 300)
 	bound := time.Duration(run.N(90, 120)) * time.Second
 	workers := run.N(4, 8)
